@@ -2,8 +2,10 @@ package drivers
 
 import (
 	"bytes"
+	"context"
 	"encoding/json"
 	"fmt"
+	gofs "io/fs"
 	"os"
 	"os/exec"
 	"path"
@@ -11,6 +13,7 @@ import (
 	"runtime/debug"
 	"sort"
 	"strings"
+	"syscall"
 	"time"
 
 	"github.com/tonistiigi/fsutil"
@@ -29,6 +32,23 @@ type followCase struct {
 	Tree        model.Tree `json:"tree"`
 	Reqs        []string   `json:"reqs"`
 	WithInclude bool       `json:"withInclude,omitempty"` // the transfer also sets an include list (that selects nothing by itself)
+	// FailTarget: looking this path up fails with an I/O error (not "does not exist")
+	FailTarget string `json:"failTarget,omitempty"`
+}
+
+// lookupFaultFS fails every Walk of one target with EIO.
+type lookupFaultFS struct {
+	fsutil.FS
+	target string
+	hit    bool
+}
+
+func (f *lookupFaultFS) Walk(ctx context.Context, target string, fn gofs.WalkDirFunc) error {
+	if filepath.Clean(target) == f.target {
+		f.hit = true
+		return &os.PathError{Op: "lstat", Path: target, Err: syscall.EIO}
+	}
+	return f.FS.Walk(ctx, target, fn)
 }
 
 func hasWild(s string) bool { return strings.ContainsAny(s, "*?[") }
@@ -158,8 +178,14 @@ func followChild(args []string) {
 			err error
 		}
 		ch := make(chan res, 1)
+		var lf *lookupFaultFS
 		go func() {
-			l, err := fsutil.FollowLinks(fsys, fc.Reqs)
+			var target fsutil.FS = fsys
+			if fc.FailTarget != "" {
+				lf = &lookupFaultFS{FS: fsys, target: fc.FailTarget}
+				target = lf
+			}
+			l, err := fsutil.FollowLinks(target, fc.Reqs)
 			ch <- res{l, err}
 		}()
 		var r res
@@ -197,7 +223,8 @@ func followChild(args []string) {
 		if r.err != nil {
 			ev["errText"] = trunc(r.err.Error())
 		}
-		if !hang && r.err == nil {
+		ev["lookupFault"] = fc.FailTarget != "" && lf != nil && lf.hit
+		if !hang && r.err == nil && fc.FailTarget == "" {
 			// end to end: a transfer with these follow-paths
 			fo := &fsutil.FilterOpt{FollowPaths: fc.Reqs}
 			if fc.WithInclude && r.l != nil {
@@ -242,7 +269,10 @@ func followTree(c *Ctx) model.Tree {
 	if c.Rand.Intn(6) == 0 {
 		names = append(names, "l[1]", "l?", "d1") // entry names that are themselves glob patterns
 	}
-	targets := []string{"a", "b", "/a", "..", "../..", "a/b", "l", "m", "/", "nonexistent", "../b", "d/a", "./a", "/d/l", "a-b", "m/x"}
+	targets := []string{"a", "b", "/a", "..", "../..", "a/b", "l", "m", "/", "nonexistent", "../b", "d/a", "./a", "/d/l", "a-b", "m/x", "a:b", "d/a:b", "/a:b/a"}
+	if c.Rand.Intn(4) == 0 {
+		names = append(names, "a:b") // a colon is an ordinary byte of a name
+	}
 	var t model.Tree
 	used := map[string]bool{}
 	dirs := []string{""}
@@ -311,6 +341,7 @@ func Follow(c *Ctx) error {
 			followCase{Tree: model.Tree{dr("d1"), ln("d1/l", "/t"), fl("t")}, Reqs: []string{"d*/l"}},
 			followCase{Tree: model.Tree{dr("d1"), fl("d1/x"), ln("d2", "d1")}, Reqs: []string{"d?/x"}},
 			followCase{Tree: model.Tree{dr("dir"), ln("dir/l1", "../t1"), ln("dir/l2", "/t2"), fl("t1"), fl("t2")}, Reqs: []string{"dir/l[12]"}},
+			followCase{Tree: model.Tree{ln("current", "etc/conf:prod"), dr("etc"), fl("etc/conf:prod"), ln("abs", "/etc/conf:prod")}, Reqs: []string{"current", "abs"}},
 			followCase{Tree: model.Tree{ln("la", "ta"), ln("lb", "tb"), dr("ta"), fl("ta/f"), dr("tb"), fl("tb/f")}, Reqs: []string{"l[ab]/f"}},
 		)
 		for i := range fixed {
@@ -349,7 +380,15 @@ func Follow(c *Ctx) error {
 				}
 				reqs = append(reqs, q)
 			}
-			cases = append(cases, followCase{Tree: t, Reqs: reqs})
+			fcase := followCase{Tree: t, Reqs: reqs}
+			if i%9 == 4 && len(reqs) > 0 && !hasWild(reqs[0]) {
+				// an I/O error while looking up a component of the first request
+				parts := strings.Split(strings.Trim(reqs[0], "/"), "/")
+				if parts[0] != "" && parts[0] != "." {
+					fcase.FailTarget = strings.Join(parts[:1+c.Rand.Intn(len(parts))], "/")
+				}
+			}
+			cases = append(cases, fcase)
 		}
 		c.Stats.Rule = "one case = FollowLinks over a materialised tree with symlinks (relative, absolute, '..' beyond the root, chains, cycles, intermediate components, dangling) and 1-3 requests (literal, non-existent, wildcard), followed by a real transfer with those follow-paths; non-trivial = some request traverses at least one symlink; distinct by (tree, requests)"
 	}
@@ -438,7 +477,7 @@ func Follow(c *Ctx) error {
 			}
 			e = vt.Ev{"ev": "Follow", "case": fc.Case, "tree": tt.Ev(), "reqs": reqs, "result": [][][]int{}, "resWild": []bool{}, "resultStr": []string{},
 				"isNil": false, "hang": true, "err": false, "byteSorted": true, "synced": false, "syncFailed": false, "dst": []vt.Ev{},
-				"crash": crashed[fc.Case], "input": vt.Opaque(fc), "exps": []vt.Ev{}}
+				"crash": crashed[fc.Case], "input": vt.Opaque(fc), "exps": []vt.Ev{}, "lookupFault": false}
 		}
 		c.Out.Emit(e)
 		nt := false
